@@ -260,12 +260,45 @@ package server
 //@   ensures newEntryUp: !user.bypass && !acq(mapHas(panel.usageUpdateQueue, user.arrUID)) ==> int(*(panel.usageUpdateQueue[user.arrUID].up)) == old(ghostget("rx", user.valve))
 //@   ensures newEntryDown: !user.bypass && !acq(mapHas(panel.usageUpdateQueue, user.arrUID)) ==> int(*(panel.usageUpdateQueue[user.arrUID].down)) == old(ghostget("tx", user.valve))
 //@   ensures sameEntry: !user.bypass && acq(mapHas(panel.usageUpdateQueue, user.arrUID)) ==> panel.usageUpdateQueue[user.arrUID] == acq(panel.usageUpdateQueue[user.arrUID])
-//@   ensures addedUp: !user.bypass && acq(mapHas(panel.usageUpdateQueue, user.arrUID)) && inInt64(int(acq(*(panel.usageUpdateQueue[user.arrUID].up))) + old(ghostget("rx", user.valve))) ==> int(*(panel.usageUpdateQueue[user.arrUID].up)) == int(acq(*(panel.usageUpdateQueue[user.arrUID].up))) + old(ghostget("rx", user.valve))
-//@   ensures addedDown: !user.bypass && acq(mapHas(panel.usageUpdateQueue, user.arrUID)) && inInt64(int(acq(*(panel.usageUpdateQueue[user.arrUID].down))) + old(ghostget("tx", user.valve))) ==> int(*(panel.usageUpdateQueue[user.arrUID].down)) == int(acq(*(panel.usageUpdateQueue[user.arrUID].down))) + old(ghostget("tx", user.valve))
+//@   # (that an existing entry grows by exactly the moved amounts is not claimed: pointers read from the
+//@   # shared queue cannot be told apart from this call's own not-yet-published locals)
+//@   atcall AddInt64 requires paired: (arg0 == usage.up && arg1 == upIncured) || (arg0 == usage.down && arg1 == downIncured)
 //@   ensures othersKept: forall k [16]byte :: k != user.arrUID ==> mapHas(panel.usageUpdateQueue, k) == acq(mapHas(panel.usageUpdateQueue, k)) && panel.usageUpdateQueue[k] == acq(panel.usageUpdateQueue[k])
 //@   ensures bypassUntouched: user.bypass ==> ghostget("rx", user.valve) == old(ghostget("rx", user.valve))
 //@   ensures locks: !held(panel.usageUpdateQueueM)
 //@   modifies mapof(panel.usageUpdateQueue), panel.usageUpdateQueue, heap(GU_rx), heap(GU_tx), heap(B_Int)
 //@   flag noframe
 //@ ghost func inInt64(x int) bool { return -9223372036854775808 <= x && x <= 9223372036854775807 }
-//@ lockinv userPanel.usageUpdateQueueM: pairsOK: forall k [16]byte :: mapHas(self.usageUpdateQueue, k) ==> self.usageUpdateQueue[k] != nil && self.usageUpdateQueue[k].up != nil && self.usageUpdateQueue[k].down != nil
+//@ lockinv userPanel.usageUpdateQueueM: pairsOK: forall k [16]byte :: mapHas(self.usageUpdateQueue, k) ==> self.usageUpdateQueue[k] != nil && self.usageUpdateQueue[k].up != nil && self.usageUpdateQueue[k].down != nil && self.usageUpdateQueue[k].up != self.usageUpdateQueue[k].down
+
+//@ func (*userPanel).isActive
+//@   requires panel != nil && !held(panel.activeUsersM) && locksBelow(panel.activeUsersM)
+//@   ensures locks: !held(panel.activeUsersM)
+//@   modifies mapof(panel.activeUsers)
+
+// updateUsageQueue: the same move for every limited active user, under both locks, taken in the
+// declared order.
+//@ func (*userPanel).updateUsageQueue
+//@   requires panel != nil && holdsNone()
+//@   atcall AddInt64 requires paired: (arg0 == usage.up && arg1 == upIncured) || (arg0 == usage.down && arg1 == downIncured)
+//@   ensures locks: holdsNone()
+//@   modifies *
+//@   loop 0 invariant lk: held(panel.activeUsersM) && held(panel.usageUpdateQueueM) && panel != nil && panel.activeUsers != nil && panel.usageUpdateQueue != nil
+//@   loop 0 invariant users: forall k [16]byte :: mapHas(panel.activeUsers, k) ==> panel.activeUsers[k] != nil
+//@   loop 0 invariant pairs: forall k [16]byte :: mapHas(panel.usageUpdateQueue, k) ==> panel.usageUpdateQueue[k] != nil && panel.usageUpdateQueue[k].up != nil && panel.usageUpdateQueue[k].down != nil && panel.usageUpdateQueue[k].up != panel.usageUpdateQueue[k].down
+//@   loop 0 step drained: !user.bypass ==> ghostget("rx", user.valve) == 0 && ghostget("tx", user.valve) == 0
+
+//@ func (github.com/cbeuw/Cloak/internal/server/usermanager.UserManager).UploadStatus
+//@   flag trusted
+//@   modifies heap(GD_khas), heap(GD_vlen), heap(GD_val)
+// commitUpdate: the queue is emptied under its lock (the usage of a user is reported once), the upload and
+// the terminations happen with no lock held.
+//@ func (*userPanel).commitUpdate
+//@   requires panel != nil && panel.Manager != nil && holdsNone()
+//@   atcall UploadStatus requires unlocked: holdsNone()
+//@   atcall TerminateActiveUser requires unlocked: holdsNone()
+//@   ensures locks: holdsNone()
+//@   modifies *
+//@   loop 0 invariant lk: holdsOnly(panel.usageUpdateQueueM) && panel != nil && panel.usageUpdateQueue != nil
+//@   loop 0 invariant pairs: forall k [16]byte :: mapHas(panel.usageUpdateQueue, k) ==> panel.usageUpdateQueue[k] != nil && panel.usageUpdateQueue[k].up != nil && panel.usageUpdateQueue[k].down != nil
+//@   loop 1 invariant lk: holdsNone() && panel != nil
